@@ -107,6 +107,28 @@ func drawFrags(t *rapid.T, label string) []int {
 
 // COT is always built over the CO base OT: the IKNP set-up runs the base OT
 // with reversed roles, which the RSA OT does not support (nobody pairs them).
+// drawWide draws n input bits; long vectors are expanded from a drawn seed
+// (one rapid draw per bit would make such cases very slow to generate).
+func drawWide(t *rapid.T, n int, label string) []bool {
+	if n <= 64 {
+		return gen.DrawBits(t, n, label)
+	}
+	d := gen.NewDRBG(rapid.Uint64().Draw(t, label+"_seed"), 99)
+	raw := d.Bytes((n + 7) / 8)
+	res := make([]bool, n)
+	mode := rapid.IntRange(0, 5).Draw(t, label+"_mode")
+	for i := range res {
+		switch mode {
+		case 0:
+		case 1:
+			res[i] = true
+		default:
+			res[i] = raw[i/8]>>(uint(i)%8)&1 == 1
+		}
+	}
+	return res
+}
+
 var otKinds = []string{"co", "co", "cot", "cot-malicious", "rsa"}
 
 func genCase(t *rapid.T) Case {
@@ -123,6 +145,12 @@ func genCase(t *rapid.T) Case {
 	} else {
 		o := gen.CircOpts{MinArgs: 2, MaxArgs: 2, MaxWidth: 9, MaxGates: 60,
 			MaxOuts: 4, MaxOutWidth: 5}
+		if rapid.IntRange(0, 7).Draw(t, "wideins") == 0 {
+			// Evaluator inputs of more than 1024 bits: several
+			// chunks / check blocks of the OT extension.
+			o.MaxWidth = 2600
+			o.MinWidth1 = 1000
+		}
 		if rapid.IntRange(0, 5).Draw(t, "wideouts") == 0 {
 			// Many output wires (results of more than 64 bits).
 			o.MaxOutWidth = 40
@@ -132,11 +160,15 @@ func genCase(t *rapid.T) Case {
 		cs.Circ = &c
 		nx, ny = c.In[0], c.In[1]
 	}
-	cs.X = gen.BitsOf(gen.DrawBits(t, nx, "x"))
-	cs.Y = gen.BitsOf(gen.DrawBits(t, ny, "y"))
+	cs.X = gen.BitsOf(drawWide(t, nx, "x"))
+	cs.Y = gen.BitsOf(drawWide(t, ny, "y"))
 	cs.OT = rapid.SampledFrom(otKinds).Draw(t, "ot")
 	if ny > 10 && cs.OT == "rsa" {
 		cs.OT = "co"
+	}
+	if ny > 1024 && rapid.Bool().Draw(t, "wide_malicious") {
+		// Several check blocks of the malicious-mode extension.
+		cs.OT = "cot-malicious"
 	}
 	cs.Seed = rapid.Uint64().Draw(t, "seed")
 	cs.FragsGE = drawFrags(t, "frag_ge")
@@ -291,6 +323,9 @@ func run(cs Case) ev.Outcome {
 	}
 	if nx != ny {
 		classes = append(classes, "unequal-input-widths")
+	}
+	if ny > 1024 {
+		classes = append(classes, "evaluator-input>1024bits")
 	}
 	if len(cs.FragsGE) > 0 || len(cs.FragsEG) > 0 {
 		classes = append(classes, "fragmented")
